@@ -111,10 +111,18 @@ def chunk_rule(ck, prog):
                 continue
             for idx_side, n_side in ((c.lhs, c.rhs), (c.rhs, c.lhs)):
                 nw = g.walk(ops=[n_side], at=c.node)
-                # "number of elements - 1": derived from bytes.len() and the constant 1 by a subtraction
-                if not (any(n.endswith("slice::len") for n in g.callee_names_in(nw)) and any(k.startswith("lit:1:") for k in g.consts_in(nw))):
+                # one side is the number of chunks (derived from bytes.len()), the other a counter that does not depend on the length:
+                # `index < n - 1`, `index + 1 >= n`, `index + 1 == n` are the same decision
+                if not any(n.endswith("slice::len") for n in g.callee_names_in(nw)):
                     continue
-                if not _has_sub(f, g, n_side, c.node):
+                iw0 = g.walk(ops=[idx_side], at=c.node, through=default_transparent)
+                if any(n.endswith("slice::len") for n in g.callee_names_in(iw0)):
+                    continue
+                if const_int(idx_side) is not None or _root_local(f, g, idx_side, c.node) is None and not any(
+                        n.endswith("Iterator::enumerate") for n in g.callee_names_in(iw0)):
+                    continue
+                one = any(k.startswith("lit:1:") for k in g.consts_in(nw)) or any(k.startswith("lit:1:") for k in g.consts_in(iw0))
+                if not one:
                     continue
                 found = (b, c, idx_side)
         if found is None:
